@@ -217,7 +217,7 @@ def write_gro(path, atoms, box, title="supplied"):
     """atoms: list of (resid, resname, name, xyz)"""
     lines = [title, str(len(atoms))]
     for i, (resid, resname, name, xyz) in enumerate(atoms, start=1):
-        lines.append(f"{resid % 100000:5d}{resname:<5s}{name:>5s}{i % 100000:5d}{xyz[0]:8.3f}{xyz[1]:8.3f}{xyz[2]:8.3f}")
+        lines.append(f"{resid % 100000:5d}{resname[:5]:<5s}{name[:5]:>5s}{i % 100000:5d}{xyz[0]:8.3f}{xyz[1]:8.3f}{xyz[2]:8.3f}")
     lines.append(" ".join(f"{b:.5f}" for b in box))
     Path(path).write_text("\n".join(lines) + "\n")
 
